@@ -8,7 +8,8 @@
     decoder - and requires equal tuples to have equal hypothesis, score, segmentation, alignment and lattice
     across ALL histories, instances and fresh decoders.
 """
-import json, os, random
+import json, os, random, re
+from concurrent.futures import ThreadPoolExecutor
 from vlib import sut, tlc, tours, tracecheck, runner
 from checks import decmatrix
 
@@ -18,9 +19,16 @@ GRAMS = {1: "public <s> = go forward ten meters | go backward | stop;",
          2: "public <s> = (go | turn) (forward | left | right) [ten meters];"}
 # two mappings of the model's audios to real audio: ordinary excerpts, and one with an utterance shorter than one
 # analysis window (its only frame comes from fe_end; its leading feature window must not show stale ring contents)
-AUDIOS = {"v": {"a1": "head", "a2": "mid"}, "w": {"a1": "tail", "a2": "t1"}, "x": {"a1": "t3", "a2": "cut"}}
+# "m": the configuration limits the active HMMs per frame (maxhmmpf) and a2 is cut off where the search is still
+# throttled, so the next utterance starts after narrowed beams (the model's Throttling audio)
+AUDIOS = {"v": {"a1": "head", "a2": "mid"}, "w": {"a1": "tail", "a2": "t1"}, "x": {"a1": "t3", "a2": "cut"},
+          "m": {"a1": "gf", "a2": "cut20"}}
+VARIANT_CFG = {"m": {"maxhmmpf": 5}}
+FAN = "public <s> = go (forward | backward) (one | two | three | four | five | six | seven | eight | nine | ten) [meter | meters];"
+VARIANT_GRAMS = {"m": {1: FAN, 2: "public <s> = (go | turn) (forward | left | right) [ten meters];"}}
+CMN_SHORT = "40,3,-1"
 AUDIO = AUDIOS["v"]
-KEEP = {"Header", "Use", "Mark", "Start", "Feed", "End", "Result", "Align", "Lattice", "Grammar"}
+KEEP = {"Header", "Use", "Mark", "Start", "Feed", "End", "Result", "Align", "Lattice", "Grammar", "SetCmn"}
 
 
 def render(ops, cfg, variant):
@@ -28,20 +36,21 @@ def render(ops, cfg, variant):
     s = ["mark __case__"] + list(decmatrix.audio_defs())
     gram = {}
     hx = decmatrix.hx
+    GR = VARIANT_GRAMS.get(variant, GRAMS)
     for op in ops:
         kind = op[0]
         if kind == "new":
             i = op[1]
-            s += ["use %d" % i, "init " + hx(json.dumps(cfg)), "jsgf " + hx("#JSGF V1.0;\ngrammar g;\n" + GRAMS[1] + "\n")]
+            s += ["use %d" % i, "init " + hx(json.dumps(dict(cfg, **VARIANT_CFG.get(variant, {})))), "jsgf " + hx("#JSGF V1.0;\ngrammar g;\n" + GR[1] + "\n")]
             gram[i] = 1
         elif kind == "free":
             s += ["use %d" % op[1], "free"]
         elif kind == "gram":
             i, g = op[1], op[2]
-            s += ["use %d" % i, "jsgf " + hx("#JSGF V1.0;\ngrammar g;\n" + GRAMS[g] + "\n")]
+            s += ["use %d" % i, "jsgf " + hx("#JSGF V1.0;\ngrammar g;\n" + GR[g] + "\n")]
             gram[i] = g
         elif kind == "setcmn":
-            s += ["use %d" % op[1], "cmn " + hx(CMN)]
+            s += ["use %d" % op[1], "cmn " + hx(CMN if len(op) < 3 or op[2] == "full" else CMN_SHORT)]
         elif kind == "begin":
             i, a, batch = op[1], op[2], op[3]
             aud = AUDIOS[variant][a]
@@ -94,7 +103,12 @@ def run(ctx):
     cfg = {"hmm": os.path.join(sut.REPO, "model", "en-us"),
            "dict": os.path.join(sut.REPO, "tests", "data", "turtle.dic"), "loglevel": "FATAL"}
     if ctx.replay:
-        cases = [("replay", [l for l in open(ctx.replay).read().split("\n") if l])]
+        cases = []          # a replay holds several executions (the baselines, then the rejected one)
+        for l in open(ctx.replay).read().split("\n"):
+            if l == "mark __case__":
+                cases.append(("replay#%d" % len(cases), []))
+            if l and cases:
+                cases[-1][1].append(l)
     else:
         model_check(ctx, quick)
         tcfg = "Session_tour6.cfg" if quick else "Session_tour7.cfg"
@@ -112,8 +126,8 @@ def run(ctx):
             ops = [edges[e][1] for e in t]
             if not any(o[0] == "end" for o in ops):
                 continue        # nothing observable
-            for variant in (("v", "w") if quick else ("v", "w", "x")):
-                if variant != "v" and ti % 3 != ("vwx".index(variant) % 3) and quick:
+            for variant in (("v", "w", "m") if quick else ("v", "w", "x", "m")):
+                if variant != "v" and ti % 3 != ("vwm".index(variant) % 3 if variant in "vwm" else 0) and quick:
                     continue
                 cases.append(("tour-%s#%d" % (variant, ti), render(ops, cfg, variant)))
         # a fresh decoder for every tuple, as the baseline the property names
@@ -121,10 +135,36 @@ def run(ctx):
             for g in GRAMS:
                 for a in AUDIO:
                     for batch in (False, True):
-                        ops = [("new", 1)] + ([("gram", 1, g)] if g != 1 else []) + ([("setcmn", 1)] if not batch else []) + \
-                              [("begin", 1, a, batch), ("end", 1)]
-                        cases.insert(0, ("fresh-%s-g%d-%s-%s#%d" % (variant, g, a, "B" if batch else "S", len(cases)),
-                                         render(ops, cfg, variant)))
+                        for kind in (("full", "short") if not batch else ("none",)):
+                            ops = [("new", 1)] + ([("gram", 1, g)] if g != 1 else []) + ([("setcmn", 1, kind)] if not batch else []) + \
+                                  [("begin", 1, a, batch), ("end", 1)]
+                            cases.insert(0, ("fresh-%s-g%d-%s-%s-%s#%d" % (variant, g, a, "B" if batch else "S", kind, len(cases)),
+                                             render(ops, cfg, variant)))
+        # what comes after a reset must not depend on what came before it - also not in the second utterance after
+        # it: the same two streaming utterances after decoder_set_cmn on a fresh decoder and on one that has history
+        for variant in (("v", "m") if quick else AUDIOS):
+            for kind in ("full", "short"):
+                for (u1, u2) in (("a1", "a2"), ("a2", "a1")):
+                    after = [("setcmn", 1, kind), ("begin", 1, u1, False), ("end", 1), ("begin", 1, u2, False), ("end", 1)]
+                    for hi, before in enumerate(([], [("begin", 1, "a2", False), ("end", 1), ("begin", 1, "a1", False), ("end", 1)],
+                                                 [("gram", 1, 2), ("begin", 1, "a1", False), ("end", 1), ("gram", 1, 1),
+                                                  ("begin", 1, "a2", True), ("end", 1)])):
+                        cases.append(("after-reset-%s-%s-%s%s-h%d#%d" % (variant, kind, u1, u2, hi, len(cases)),
+                                      render([("new", 1)] + before + after, cfg, variant)))
+        # an utterance cut off while the search is throttled (more HMMs active than maxhmmpf) leaves narrowed beams
+        # behind; the next utterance must not see them.  Where throttling is still on at the end depends on the
+        # cut, so the cut sweeps the recording.
+        for mh in ((3, 10) if quick else (3, 5, 10, 20)):
+            c2 = dict(cfg, maxhmmpf=mh)
+            head = ["mark __case__"] + list(decmatrix.audio_defs()) + ["use 1", "init " + decmatrix.hx(json.dumps(c2)),
+                    "jsgf " + decmatrix.hx("#JSGF V1.0;\ngrammar g;\n" + FAN + "\n")]
+            probe = ["cmn " + decmatrix.hx(CMN), "mark S:fan%d:gf:t" % mh, "start", "feed gf 0 -1 i16 0 0", "end", "result fin",
+                     "alignment fin", "lattice fin 0"]
+            cases.append(("throttle-fresh-%d#%d" % (mh, len(cases)), head + probe + ["free"]))
+            for cut in range(12000, 31000, 1000 if quick else 500):
+                cases.append(("throttle-%d-%d#%d" % (mh, cut, len(cases)),
+                              head + ["audio cx slice gf 0 %d" % cut, "cmn " + decmatrix.hx(CMN), "mark S:fan%d:cx%d:t" % (mh, cut),
+                                      "start", "feed cx 0 -1 i16 0 0", "end", "result fin"] + probe + ["free"]))
         # asking the same question again, mid-utterance, at points where the first-best ends before the newest frame
         for n in (9000, 12000, 15000, 17000, 22000, 26000, 31000):
             s = ["mark __case__"] + list(decmatrix.audio_defs()) + ["use 1", "init " + decmatrix.hx(json.dumps(cfg)),
@@ -139,11 +179,24 @@ def run(ctx):
         p = decmatrix.write_replay(ctx, "crash_" + eid, by_id[eid])
         rep.violation(runner.crash_key(why), "decoder crashed in a history (%s): %s" % (eid, why), p)
     fch = [(eid, decmatrix.filter_events(ch, KEEP)) for eid, ch in chunks]
-    acc, fails, results = tracecheck.validate(SPEC, "SessionTrace.tla", "SessionTrace.cfg", fch, ctx.work, timeout=2400,
-                                              max_fail=6, heap="8g")
-    for r in results:
-        rep.add_tlc("SessionTrace", r, mode="trace-validation")
-    rep.traces += acc
+    # Tuples of different audio mappings never coincide (the mapping is part of every tag), so each mapping is
+    # validated by its own TLC run, in parallel: the map of seen tuples is what makes a run expensive.
+    shards = {}
+    for eid, ch in fch:
+        m = re.match(r"(?:tour|fresh|after-reset)-([vwxm])\b", eid)
+        shards.setdefault(m.group(1) if m else ("v" if eid.startswith("ask-again") else "m" if eid.startswith("throttle") else "all"), []).append((eid, ch))
+    if "all" in shards:
+        shards = {"all": fch}
+    fails = []
+    with ThreadPoolExecutor(max_workers=4) as ex:
+        futs = [ex.submit(tracecheck.validate, SPEC, "SessionTrace.tla", "SessionTrace.cfg", sh, ctx.work, 2400, 6, "6g")
+                for _, sh in sorted(shards.items())]
+        for fu in futs:
+            acc, fl, results = fu.result()
+            for r in results:
+                rep.add_tlc("SessionTrace", r, mode="trace-validation")
+            rep.traces += acc
+            fails += fl
     keys = set()
     for eid, ch in fch:
         for ln in ch:
